@@ -21,6 +21,7 @@
 #include <atomic>
 #include <cxxabi.h>
 #include <dlfcn.h>
+#include <link.h>
 #include <execinfo.h>
 #include <new>
 #include <pthread.h>
@@ -66,6 +67,10 @@ static std::atomic<long> g_lockCalls(0);
 // happen inside an interposed call all the same, t_inMutex marks it as exempt in the fault handler.
 static char* g_base = nullptr;
 static const size_t g_cap = size_t(1) << 30;
+// libxalan-c's own writable static data (.got.plt .data .bss: the PF_W PT_LOAD segment minus its RELRO part), page-aligned
+static char* g_sbase = nullptr; static char* g_send = nullptr; static char* g_libBase = nullptr;
+static inline bool inArena(const char* p)  { return g_base && p >= g_base && p < g_base + g_cap; }
+static inline bool inStatic(const char* p) { return g_sbase && p >= g_sbase && p < g_send; }
 static const int NSHADOW = 1 << 12;
 static std::atomic<uintptr_t> g_shadowKey[NSHADOW];
 static pthread_mutex_t g_shadow[NSHADOW];
@@ -77,7 +82,7 @@ static void initShadows() {
 }
 static inline pthread_mutex_t* shadowOf(pthread_mutex_t* m) {
     char* p = (char*)m;
-    if (!g_base || p < g_base || p >= g_base + g_cap) return m;
+    if (!inArena(p) && !inStatic(p)) return m;
     uintptr_t key = (uintptr_t)p;
     unsigned i = unsigned((key >> 3) * 0x9E3779B1u) & (NSHADOW - 1);
     for (int probe = 0; probe < NSHADOW; ++probe, i = (i + 1) & (NSHADOW - 1)) {
@@ -123,8 +128,8 @@ static std::atomic<int> g_frozen(0);
 static std::atomic<long> g_postFreezeAllocs(0);
 
 // object boundaries inside the arena (offsets), filled while building
-enum { O_TABLES, O_TRANSFORMER, O_STYLESHEET, O_SOURCE, O_FRESH, O_COUNT };
-static const char* const g_objName[O_COUNT] = { "tables", "transformer", "stylesheet", "source", "fresh" };
+enum { O_TABLES, O_TRANSFORMER, O_STYLESHEET, O_SOURCE, O_FRESH, O_STATIC, O_COUNT };
+static const char* const g_objName[O_COUNT] = { "tables", "transformer", "stylesheet", "source", "fresh", "static" };
 static size_t g_objEnd[O_COUNT];   // exclusive end offset of each object; O_FRESH = everything allocated after Freeze
 
 static int objectOf(size_t off) {
@@ -151,7 +156,7 @@ enum { EV_START = 1, EV_WRITE, EV_DONE, EV_MUTEXWORD };
 static const int MAXFR = 40;
 struct Rec {
     std::atomic<int> ready;
-    int type, thread, locks, obj, nfr, rc;
+    int type, thread, locks, obj, nfr, rc, atomic;
     size_t off;
     unsigned long long hash; size_t len;
     void* fr[MAXFR];
@@ -202,6 +207,7 @@ static void dieSegv(int sig, siginfo_t* si) {
     if (write(2, buf, n)) {}
     if (g_frozen.exchange(0)) {
         mprotect(g_base, g_cap, PROT_READ | PROT_WRITE);
+        if (g_sbase) mprotect(g_sbase, g_send - g_sbase, PROT_READ | PROT_WRITE);
         reportEvents();
         printf("{\"e\":\"Crash\",\"signal\":%d,\"thread\":%d}\n", sig, t_id);
         fflush(stdout);
@@ -213,7 +219,8 @@ static void dieSegv(int sig, siginfo_t* si) {
 static void onSegv(int sig, siginfo_t* si, void* ucv) {
     ucontext_t* uc = (ucontext_t*)ucv;
     char* addr = (char*)si->si_addr;
-    if (!g_frozen.load() || addr < g_base || addr >= g_base + g_cap || t_nopen >= MAXOPEN) { dieSegv(sig, si); return; }
+    const bool isStatic = inStatic(addr);
+    if (!g_frozen.load() || !(inArena(addr) || isStatic) || t_nopen >= MAXOPEN) { dieSegv(sig, si); return; }
     int savedErrno = errno;
     char* page = (char*)(uintptr_t(addr) & ~uintptr_t(4095));
     mprotect(page, 4096, PROT_READ | PROT_WRITE);
@@ -227,14 +234,26 @@ static void onSegv(int sig, siginfo_t* si, void* ucv) {
     }
     if (t_canary) { errno = savedErrno; return; }
     void* rip = (void*)uc->uc_mcontext.gregs[REG_RIP];
-    size_t off = size_t(addr - g_base);
-    int obj = objectOf(off);
+    size_t off = isStatic ? size_t(addr - g_libBase) : size_t(addr - g_base);   // static: link-time address inside libxalan-c.so
+    int obj = isStatic ? int(O_STATIC) : objectOf(off);
     int locks = t_locks;
+    // LOCK-prefixed read-modify-write or xchg with memory: an atomic operation, not a data race
+    int atomic = 0;
+    {
+        const unsigned char* ip = (const unsigned char*)rip;
+        int k = 0;
+        for (; k < 4; ++k) {
+            unsigned char b = ip[k];
+            if (b == 0xF0) { atomic = 1; break; }
+            if (!(b == 0x66 || b == 0x67 || b == 0x2E || b == 0x36 || b == 0x3E || b == 0x26 || b == 0x64 || b == 0x65 || b == 0xF2 || b == 0xF3)) break;
+        }
+        if (!atomic) { if ((ip[k] & 0xF0) == 0x40) ++k; if (ip[k] == 0x86 || ip[k] == 0x87) atomic = 1; }
+    }
     void* fr[MAXFR]; int nfr = 0;
     // a store under a mutex is accepted by the rule whatever its call site: unwind the stack only the first time this
     // instruction stores into this object under a lock (the unwinder costs more than the two signals)
     bool unwind = true;
-    if (locks > 0) {
+    if (locks > 0 || atomic) {
         unsigned long long k0 = ((unsigned long long)(uintptr_t)rip * 1099511628211ull) ^ (unsigned long long)(obj + 1) ^ 0x5bd1e995ull;
         unwind = firstTime(k0);
         if (!unwind) { errno = savedErrno; return; }
@@ -251,7 +270,7 @@ static void onSegv(int sig, siginfo_t* si, void* ucv) {
     if (firstTime(key)) {
         Rec* r = newRec();
         if (r) {
-            r->type = EV_WRITE; r->thread = t_id; r->locks = locks; r->obj = obj; r->off = off; r->nfr = nfr;
+            r->type = EV_WRITE; r->thread = t_id; r->locks = locks; r->obj = obj; r->off = off; r->nfr = nfr; r->atomic = atomic;
             memcpy(r->fr, fr, sizeof(void*) * nfr);
             r->ready.store(1);
         }
@@ -510,11 +529,30 @@ static void reportEvents() {
                     frames += xv::jstr(s.name.substr(8));
                 }
             }
-            printf("{\"e\":\"Write\",\"thread\":%d,\"obj\":\"%s\",\"off\":%zu,\"locks\":%d,\"mod\":\"%s\",\"site\":%s,\"frames\":[%s]}\n",
-                   r.thread, g_objName[r.obj], r.off, r.locks, mod.c_str(), xv::jstr(site).c_str(), frames.c_str());
+            printf("{\"e\":\"Write\",\"thread\":%d,\"region\":\"%s\",\"obj\":\"%s\",\"off\":%zu,\"locks\":%d,\"atomic\":%s,\"mod\":\"%s\",\"site\":%s,\"frames\":[%s]}\n",
+                   r.thread, r.obj == O_STATIC ? "static" : "arena", g_objName[r.obj], r.off, r.locks, r.atomic ? "true" : "false", mod.c_str(), xv::jstr(site).c_str(), frames.c_str());
         }
     }
     g_writesReported = writes;
+}
+
+// ------------------------------------------------------------------------------ library static data
+static int phdrCallback(struct dl_phdr_info* info, size_t, void*) {
+    const char* name = info->dlpi_name;
+    if (!name || !strstr(name, "libxalan-c.so")) return 0;
+    char* lo = nullptr; char* hi = nullptr; char* relroEnd = nullptr;
+    for (int i = 0; i < info->dlpi_phnum; ++i) {
+        const ElfW(Phdr)& ph = info->dlpi_phdr[i];
+        char* a = (char*)info->dlpi_addr + ph.p_vaddr;
+        if (ph.p_type == PT_LOAD && (ph.p_flags & PF_W)) { lo = a; hi = a + ph.p_memsz; }
+        if (ph.p_type == PT_GNU_RELRO) relroEnd = a + ph.p_memsz;
+    }
+    if (!lo) return 0;
+    char* start = (relroEnd && relroEnd > lo && relroEnd <= hi) ? relroEnd : lo;   // RELRO is read-only already
+    g_libBase = (char*)info->dlpi_addr;
+    g_sbase = (char*)(uintptr_t(start) & ~uintptr_t(4095));
+    g_send = (char*)((uintptr_t(hi) + 4095) & ~uintptr_t(4095));
+    return 1;
 }
 
 // -------------------------------------------------------------------------------------------- main
@@ -527,6 +565,17 @@ int main(int argc, char** argv) {
     if (nthreads < 1 || nthreads > 64 || g_iters < 1) { fprintf(stderr, "bad thread/iteration count\n"); return 2; }
     g_serial = argc > 6 && std::string(argv[6]) == "serial";
     const bool noFreeze = getenv("XV_C07_NOFREEZE") != nullptr;   // diagnosis only: same run without the observation
+    const bool noStatic = getenv("XV_C07_NOSTATIC") != nullptr;   // diagnosis only: arena observation alone
+    if (!getenv("LD_BIND_NOW")) {
+        // .got.plt of libxalan-c.so lies in the watched static pages: have the loader fill it before main, not lazily
+        setenv("LD_BIND_NOW", "1", 1);
+        execv("/proc/self/exe", argv);
+        perror("execv"); return 2;
+    }
+    if (!noStatic) {
+        dl_iterate_phdr(phdrCallback, nullptr);
+        if (!g_sbase) { fprintf(stderr, "xv_c07: writable segment of libxalan-c.so not found\n"); return 4; }
+    }
     resolveMutexFns();
     initShadows();
 
@@ -553,12 +602,15 @@ int main(int argc, char** argv) {
     for (int o = 0; o < O_FRESH; ++o) printf("{\"e\":\"Build\",\"obj\":\"%s\",\"bytes\":%zu}\n", g_objName[o], g_objEnd[o] - (o ? g_objEnd[o - 1] : 0));
     // "fresh" = what the shared objects' memory manager will hand out from now on (lazily created parts of them)
     printf("{\"e\":\"Build\",\"obj\":\"fresh\",\"bytes\":%zu}\n", g_cap - g_top.load());
+    // "static" = libxalan-c's own .data/.bss (process-wide, shared by every thread whatever it shares on purpose)
+    printf("{\"e\":\"Build\",\"obj\":\"static\",\"bytes\":%zu}\n", size_t(g_send - g_sbase));
 
     // ---- Freeze
     installHandlers();
     size_t frozenBytes = g_top.load();
     if (!noFreeze) {
         if (mprotect(g_base, g_cap, PROT_READ) != 0) { perror("mprotect"); return 2; }
+        if (g_sbase && mprotect(g_sbase, g_send - g_sbase, PROT_READ) != 0) { perror("mprotect static"); return 2; }
         g_frozen.store(1);
     }
     for (int o = 0; o < O_COUNT; ++o) printf("{\"e\":\"Freeze\",\"obj\":\"%s\"}\n", g_objName[o]);
@@ -567,8 +619,9 @@ int main(int argc, char** argv) {
         long before = g_faults.load();
         t_canary = 1;
         *(volatile char*)(g_base + g_objEnd[O_TRANSFORMER] - 1) = *(volatile char*)(g_base + g_objEnd[O_TRANSFORMER] - 1);
+        if (g_sbase) { *(volatile char*)(g_send - 1) = *(volatile char*)(g_send - 1); }
         t_canary = 0;
-        if (g_faults.load() != before + 1 || g_lockCalls.load() == 0) {
+        if (g_faults.load() != before + 1 + (g_sbase ? 1 : 0) || g_lockCalls.load() == 0) {
             fprintf(stderr, "xv_c07: observation self-check failed (faults %ld -> %ld, lock calls %ld)\n", before, g_faults.load(), g_lockCalls.load());
             return 4;
         }
@@ -588,6 +641,7 @@ int main(int argc, char** argv) {
     // ---- thaw (nothing is destroyed: the process ends here) and report
     g_frozen.store(0);
     mprotect(g_base, g_cap, PROT_READ | PROT_WRITE);
+    if (g_sbase) mprotect(g_sbase, g_send - g_sbase, PROT_READ | PROT_WRITE);
     reportEvents();
     long writes = g_writesReported;
     printf("{\"e\":\"Join\",\"faults\":%ld,\"mutexWordFaults\":%ld,\"writeSites\":%ld,\"postFreezeAllocs\":%ld,\"lockCalls\":%ld,\"shadowedMutexes\":%ld,\"frozenBytes\":%zu,\"dropped\":%ld}\n",
